@@ -75,6 +75,9 @@ pub enum React {
     Pull2,
     Terminate,
     Error,
+    /// ask for more and then leave, from inside the same handler
+    PullTerminate,
+    PullError,
 }
 
 #[derive(Clone, Debug, Serialize, Deserialize, PartialEq, Eq, Hash)]
@@ -170,6 +173,9 @@ pub enum Profile {
     ForEach,
     /// two subscriptions to one output (any operator but share)
     Indep,
+    /// two subscriptions to the output of one operator sitting directly on puppets (the operator
+    /// models are evaluated per subscription)
+    Dual(Op),
     /// demand accounting: pullable puppets, credit-respecting sinks
     PullCount,
     /// from_iter directly under a probe (n = 255 means an unbounded iterator)
@@ -217,6 +223,8 @@ struct Gen<'a, 'b> {
     late_ok: Vec<bool>,
     /// leaves are always puppets (the operator models need every upstream instrumented)
     puppets_only: bool,
+    /// take(0) may be generated (only where no model or counting oracle assumes n >= 1)
+    take_zero: bool,
 }
 
 impl<'a, 'b> Gen<'a, 'b> {
@@ -250,7 +258,12 @@ impl<'a, 'b> Gen<'a, 'b> {
                 let seed = self.d.below(7) as i64 - 2;
                 Topo::Scan(r, seed, Box::new(self.tree(depth, false)))
             }
-            Op::Take => Topo::Take(1 + self.d.below(6) as u8, Box::new(self.tree(depth, false))),
+            Op::Take => {
+                let k = self.d.below(if self.take_zero { 8 } else { 6 }) as u8;
+                // 6 and 7 stand for take(0) where that is allowed
+                let n = if k >= 6 { 0 } else { 1 + k };
+                Topo::Take(n, Box::new(self.tree(depth, false)))
+            }
             Op::Skip => Topo::Skip(self.d.below(7) as u8, Box::new(self.tree(depth, false))),
             Op::Merge => Topo::Merge(self.members(depth, 1, 4, at_root)),
             Op::Concat => Topo::Concat(self.members(depth, 1, 4, false)),
@@ -351,14 +364,14 @@ impl<'a, 'b> Gen<'a, 'b> {
                 // passive (or puller) that disposes at one position
                 let base = d.pick(&[React::Nothing, React::Pull]);
                 let k = d.below(7);
-                let t = d.pick(&[React::Terminate, React::Error]);
+                let t = d.pick(&[React::Terminate, React::Error, React::PullTerminate, React::PullError]);
                 let mut react = vec![base; k];
                 react.push(t);
                 SinkSpec { react, react_default: base, credit: false }
             }
             _ => {
                 let n = d.below(8);
-                const R: [React; 7] = [
+                const R: [React; 9] = [
                     React::Nothing,
                     React::Pull,
                     React::Nothing,
@@ -366,6 +379,8 @@ impl<'a, 'b> Gen<'a, 'b> {
                     React::Pull2,
                     React::Terminate,
                     React::Error,
+                    React::PullTerminate,
+                    React::PullError,
                 ];
                 let react = (0..n).map(|_| d.pick(&R)).collect();
                 let react_default = d.pick(&[React::Nothing, React::Pull]);
@@ -382,7 +397,8 @@ pub fn decode(profile: Profile, bytes: &[u8], max_steps: usize) -> Scenario {
         n_pup: 0,
         n_leaf: 0,
         late_ok: vec![],
-        puppets_only: matches!(profile, Profile::Single(_) | Profile::Share | Profile::ShareNested),
+        puppets_only: matches!(profile, Profile::Single(_) | Profile::Dual(_) | Profile::Share | Profile::ShareNested),
+        take_zero: matches!(profile, Profile::AnySingle | Profile::Composed),
     };
     let mut root_tuple = false;
     let mut sink_kind = SinkKind::Probe;
@@ -440,6 +456,13 @@ pub fn decode(profile: Profile, bytes: &[u8], max_steps: usize) -> Scenario {
             } else {
                 g.op(ALL_OPS[k - 2], 0, false)
             }
+        }
+        Profile::Dual(op) => {
+            n_sinks = 2;
+            if op == Op::Combine {
+                root_tuple = true;
+            }
+            g.op(op, 0, false)
         }
         Profile::Indep => {
             n_sinks = 2;
@@ -514,11 +537,11 @@ pub fn decode(profile: Profile, bytes: &[u8], max_steps: usize) -> Scenario {
                     StepPAct::Error,
                 ])
             };
-            let owner = if profile == Profile::Indep { d.below(2) as u8 } else { ANY_OWNER };
+            let owner = if matches!(profile, Profile::Indep | Profile::Dual(_)) { d.below(2) as u8 } else { ANY_OWNER };
             schedule.push(Step::Pup { p: who as u8, owner, act });
         } else {
             let s = (who - n_pup) as u8;
-            let act = if matches!(profile, Profile::Share | Profile::ShareNested | Profile::Indep) {
+            let act = if matches!(profile, Profile::Share | Profile::ShareNested | Profile::Indep | Profile::Dual(_)) {
                 d.pick(&[
                     StepSAct::Attach,
                     StepSAct::Pull,
